@@ -1071,6 +1071,126 @@ def r16_6(ctx, rc=None):
     ctx.count('reference_acquisitions', n)
 
 
+def r16_7(ctx, only=None, rule='R16.7'):
+    """a NULL guard (a test whose NULL edge returns) is not preceded by a
+    dereference of the same pointer on every path: if it is, either the guard
+    or the dereference is wrong (Engler's check-then-use contradiction)"""
+    prog = ctx.prog
+    n_guard = 0
+    for f in prog.fns():
+        if only is not None:
+            if f.name not in only:
+                continue
+        elif not f.file.startswith('libyara/') and not ctx.fixture:
+            continue
+        guards = {}
+        for n in f.all_nodes():
+            if n['k'] != 'if' or f.macros(n):
+                continue
+            c0 = cu.strip_casts(f, f.kid(n, 0))
+            if c0 is None:
+                continue
+            ks = f.kids(n)
+            # `p == NULL || other` guards like `p == NULL`
+            cands = []
+            st = [c0]
+            while st:
+                y = st.pop()
+                if y is None:
+                    continue
+                if y['k'] == 'bin' and y['op'] == '||':
+                    st.append(cu.strip_casts(f, f.kid(y, 0)))
+                    st.append(cu.strip_casts(f, f.kid(y, 1)))
+                else:
+                    cands.append((y, y is not c0))
+            for c, inner in cands:
+                v = None
+                null_arm = None
+                if c['k'] == 'bin' and c['op'] in ('==', '!='):
+                    a, b = cu.strip_casts(f, f.kid(c, 0)), cu.strip_casts(f, f.kid(c, 1))
+                    for x, y in ((a, b), (b, a)):
+                        if x is not None and x['k'] == 'ref' and x.get('dk') in ('local', 'param') and \
+                                cu.const_of(y) == 0:
+                            v = x['name']
+                            if c['op'] == '==':
+                                null_arm = ks[1]
+                            elif not inner:
+                                null_arm = ks[2] if len(ks) > 2 else None
+                elif c['k'] == 'un' and c['op'] == '!':
+                    x = cu.strip_casts(f, f.kid(c, 0))
+                    if x is not None and x['k'] == 'ref' and x.get('dk') in ('local', 'param'):
+                        v, null_arm = x['name'], ks[1]
+                if v is None or null_arm is None:
+                    continue
+                isptr = any((dd['name'] == v and ('*' in dd.get('t', '') or dd.get('prec')))
+                            for dd in f.all_nodes() if dd['k'] == 'decl') or \
+                    any(p_['name'] == v and ('*' in p_.get('type', '') or p_.get('prec')) for p_ in f.params)
+                if not isptr:
+                    continue
+                # a guard: the NULL arm leaves the function
+                if not any(x['k'] in ('ret', 'goto') for x in f.walk(null_arm)):
+                    continue
+                guards[c['i']] = (n, v)
+        if not guards:
+            continue
+        names = set(v for _, v in guards.values())
+        found = {}
+
+        def is_deref(x, v):
+            if x['k'] == 'member' and x.get('arrow'):
+                b = cu.strip_casts(f, f.kid(x, 0))
+                return b is not None and b['k'] == 'ref' and b['name'] == v
+            if x['k'] in ('sub',) or (x['k'] == 'un' and x['op'] == '*'):
+                b = cu.strip_casts(f, f.kid(x, 0))
+                return b is not None and b['k'] == 'ref' and b['name'] == v
+            return False
+
+        def step(x, facts):
+            for v in names:
+                if is_deref(x, v):
+                    facts = frozenset(y for y in facts if y[0] != v) | {(v, x.get('l', 0))}
+            name = None
+            if x['k'] == 'bin' and x['op'] == '=':
+                l = cu.strip_casts(f, f.kid(x, 0))
+                name = l['name'] if l is not None and l['k'] == 'ref' else None
+            elif x['k'] == 'decl':
+                name = x['name']
+            elif x['k'] == 'un' and x['op'] in ('++', '--', 'post++', 'post--', '&'):
+                l = cu.strip_casts(f, f.kid(x, 0))
+                name = l['name'] if l is not None and l['k'] == 'ref' else None
+            if name in names:
+                facts = frozenset(y for y in facts if y[0] != name)
+            if x['k'] == 'ret':
+                return None
+            return facts
+
+        def obs(x, facts):
+            if x['i'] in guards:
+                g, v = guards[x['i']]
+                ds = [y for y in facts if y[0] == v]
+                if ds:
+                    found[g['i']] = (g, v, ds[0][1])
+        try:
+            paths.must_flow(f, set(), step, None, obs)
+        except paths.Budget:
+            continue
+        seen = set()
+        for gi, (g, v) in guards.items():
+            if g['i'] in seen:
+                continue
+            seen.add(g['i'])
+            n_guard += 1
+            bad = found.get(g['i'])
+            k = sorted(set(y[0]['i'] for y in guards.values() if y[1] == v)).index(g['i'])
+            ctx.ob(rule, '%s:%s#%d:guard-precedes-use' % (f.name, v, k), bad is None, f.loc(g),
+                   'the NULL guard on %s is reached without %s having been dereferenced' % (v, v)
+                   if bad is None else
+                   '%s is tested for NULL here, but on every path to this test it was already '
+                   'dereferenced (line %s): when it is NULL the process has crashed before the guard' % (
+                       v, bad[2]))
+    ctx.count(rule + '_null_guards', n_guard)
+
+
 def _fx(which, **kw):
     def runner(ctx):
         cg, rc, allocs, nullable = _all(ctx)
@@ -1084,6 +1204,8 @@ def _fx(which, **kw):
             r16_4(ctx, cg, rc, allocs)
         elif which == 6:
             r16_6(ctx)
+        elif which == 7:
+            r16_7(ctx)
         else:
             r16_5(ctx)
     d = {'src': 'C16/errs.c', 'run': runner}
@@ -1097,6 +1219,8 @@ FIXTURES = {
     'R16.3': _fx(3, expect='realloc_self:b->data=yr_realloc'),
     'R16.4': _fx(4, expect='leaks_on_error:tmp', expect_ok='no_leak:tmp'),
     'R16.5': _fx(5, expect='raw:malloc'),
+    'R16.7': _fx(7, expect='guard_after_use:t#0:guard-precedes-use',
+                 expect_ok='guard_before_use:t#0:guard-precedes-use'),
     'R16.6': _fx(6, expect='wrap_bad:thing_acquire(t):released-on-failure',
                  expect_ok='wrap_good:thing_acquire(t):released-on-failure'),
 }
@@ -1111,6 +1235,8 @@ def run(ctx):
     r16_5(ctx)
     r16_6(ctx)
     ctx.floor('R16.6', 1)
+    r16_7(ctx)
+    ctx.floor('R16.7', 200)
     ctx.floor('R16.1', 1200)
     ctx.floor('R16.2', 180)
     ctx.floor('R16.3', 4)
